@@ -92,9 +92,8 @@ theorem leaf_agrees (sch : SchemaEval) {d : Doc} {path : String} (hd : PathDom d
     · simp at hp
   · -- $exists
     cases hp
-    simp only [coreC, Bool.not_eq_true'] at hc
     rw [mOp_leaf sch d "$exists" path v _ rfl, holdsC]
-    exact matchExists_agrees hd v hc
+    exact matchExists_agrees hd v
   · -- $type
     rw [mOp_leaf sch d "$type" path v _ rfl]
     obtain ⟨n, ts, rfl⟩ := parseType_inv hp
@@ -111,13 +110,9 @@ theorem leaf_agrees (sch : SchemaEval) {d : Doc} {path : String} (hd : PathDom d
     split at hp
     · cases hp
       rename_i vs
-      simp only [coreC, Bool.not_true, Bool.false_or, Bool.and_eq_true] at hc
+      simp only [coreC, Bool.and_eq_true] at hc
       rw [mOp_leaf sch d "$all" path _ _ rfl, holdsC]
-      refine matchAll_agrees hd vs ?_ ?_
-      · intro hf; simpa [hf] using hc.1.2
-      · intro hf
-        refine ⟨fo_imp hc.1.1.2 hf, ?_⟩
-        simpa [hf] using hc.2
+      exact matchAll_agrees hd vs (fo_imp hc.2)
     · simp at hp
   · -- $mod
     rw [mOp_leaf sch d "$mod" path v _ rfl]
